@@ -220,6 +220,12 @@ func (t *Transaction) rowsFromTransactionCacheAndDatabase(table string, where []
 		return nil, fmt.Errorf("failed getting rows for table %s from database: %v", table, err)
 	}
 
+	// exclude deleted rows, they should not be warmed into the transaction
+	// cache again
+	for rowUUID := range t.DeletedRows {
+		delete(rows, rowUUID)
+	}
+
 	// prefer rows from transaction cache while copying into cache
 	// rows that are in the db.
 	for rowUUID, row := range rows {
@@ -241,10 +247,6 @@ func (t *Transaction) rowsFromTransactionCacheAndDatabase(table string, where []
 	// add rows that have been inserted in this transaction
 	for rowUUID, row := range txnRows {
 		rows[rowUUID] = row
-	}
-	// exclude deleted rows
-	for rowUUID := range t.DeletedRows {
-		delete(rows, rowUUID)
 	}
 	return rows, nil
 }
